@@ -556,7 +556,7 @@ pub(crate) fn parse_markers_cursor<T: Pep508Url>(
                 "Unexpected character '{unexpected}', expected 'and', 'or' or end of input"
             )),
             start: pos,
-            len: cursor.remaining(),
+            len: cursor.remaining_len_from(pos),
             input: cursor.to_string(),
         });
     };
